@@ -192,7 +192,11 @@ def unit_lists(ctx, quick):
         for k in (1, 37, 256, 1000):
             r1 = C.get_read_blocks(rs + k, ops)
             chk("get_read_blocks", r1[0] == sh_ivs(k, r0[0]) and r1[1:] == r0[1:], {"ref_start": rs, "cigar": ops, "k": k})
-        # reflection: the reversed CIGAR on the mirrored start gives the mirrored exons (for CIGARs whose exon runs start and end with a match)
+        # reflection: the reversed CIGAR on the mirrored start (0-based [rs, re) -> [L-re, L-rs)) gives the mirrored exons
+        Lc = 100000; ref_len = sum(l for o, l in ops if o in (0, 2, 3, 7, 8)); qlen = sum(l for o, l in ops if o in (0, 1, 4, 7, 8))
+        rm = C.get_read_blocks(Lc - (rs + ref_len), list(reversed(ops)))
+        chk("get_read_blocks(mirror)", rm[0] == mir_ivs(Lc, r0[0]) and rm[1] == [(qlen - 1 - b, qlen - 1 - a) for a, b in reversed(r0[1])],
+            {"ref_start": rs, "cigar": ops, "L": Lc, "exons": r0[0], "exons(mirror)": rm[0], "read_blocks": r0[1], "read_blocks(mirror)": rm[1]})
     ctx.count(evaluations=n, nontrivial=nt)
     ctx.rule("interval-list functions on the real code (junctions_from_blocks, intervals_total_length, sum_intervals_to_point / from_point, interval_bin_search / _rev, jaccard_similarity, "
              "read_coverage_fraction, merge_ranges, get_read_blocks): every strictly separated list of <= 3 intervals over 1..6 and random lists; shifts {1,37,256,1000} and reflection, mirror pairs crossed")
@@ -294,12 +298,12 @@ def unit_verifier(ctx, quick):
     def copy(evs): return [MatchEvent(e.event_type, e.isoform_region, e.read_region, e.event_info) for e in evs]
     iso_sets = []
     for n in (1, 2, 3, 4):
-        for _ in range(8 if quick else 40):
+        for _ in range(5 if quick else 40):
             c = sorted(rnd.sample(range(20, 100), 2 * n)); iso_sets.append([(c[2 * i], c[2 * i + 1]) for i in range(n)])
     iso_sets += [[(20, 40), (50, 52), (60, 61)], [(20, 40), (50, 53)], [(30, 31), (40, 42), (50, 90)]]
     for iso in iso_sets:
         n = len(iso)
-        for rep in range(25 if quick else 80):
+        for rep in range(22 if quick else 80):
             # read exons: a variation of the isoform's exons
             m = rnd.randint(1, n); read = [(a + rnd.randint(-2, 2), b + rnd.randint(-2, 2)) for a, b in iso[:m]]
             read = [(a, max(a, b)) for a, b in read]
@@ -332,7 +336,7 @@ def unit_verifier(ctx, quick):
     ctx.rule("PolyAVerifier.verify_polya / verify_polyt, detect_reference_exons_beyond_polya / _before_polyt, check_if_close on the real methods (apa_delta 5, max_fake_terminal_exon_len 4, "
              "max_missed_exon_len 6, delta 2): isoforms of 1-4 exons, reads derived from them, tail positions at and around isoform / read ends (and -1), 0-4 prior events; the polyA side on the "
              "input, the polyT side on the mirrored input; Coq checks model = implementation for each half and that the two implementations' outputs are mirror images; non-trivial = not an assertion")
-    mism, viol = ctx.corr("PolyAVerifier pair", PRE_V, cases, shard=56, nontrivial=lambda o: isinstance(o["verify_polya"], list))
+    mism, viol = ctx.corr("PolyAVerifier pair", PRE_V, cases, shard=34, ctype="T", nontrivial=lambda o: isinstance(o["verify_polya"], list))
     report_strict(ctx, "PolyAVerifier pair", mism, viol, what="verify_polyt / detect_reference_exons_before_polyt / check_if_close on the mirrored input is not the mirror image of the polyA side")
 
 
@@ -385,7 +389,7 @@ def unit_assigner(ctx, quick):
     src_text = open(os.path.join(REPO, "src", "long_read_assigner.py")).read()
     repaired = "extra_right = 1 if read_region[1] - self.params.delta > transcript_end else 0" in src_text      # fixes/C11_extra_right_typo.diff applied: the model is best_candidates_fix
     corpus = [(4, (160, 200), [(1, 0, (150, 190)), (2, 4, (150, 210))])]            # the witness of MirrorPairsProofs.v
-    for it in range(len(corpus) + (3000 if quick else 30000)):
+    for it in range(len(corpus) + (1600 if quick else 30000)):
         if it < len(corpus): delta, rr, cands = corpus[it]
         else:
             delta = rnd.choice([0, 2, 4]); a = rnd.randint(50, 300); rr = (a, a + rnd.randint(0, 60))
@@ -409,7 +413,7 @@ def unit_assigner(ctx, quick):
              "intron differences 0-5; input and mirrored input; Coq: model = implementation on both, selections equal; non-trivial = a candidate was dropped")
     pre_sel = PRE_SEL.replace("best_candidates delta", "best_candidates_fix delta") if repaired else PRE_SEL
     if repaired: ctx.notes.append("select_similar_isoforms: the repository has read_region[1] in extra_right; model best_candidates_fix")
-    mism, viol = ctx.corr("select_similar_isoforms", pre_sel, cases, shard=200, nontrivial=lambda o: len(o["selected"]) < len(o["candidates(id,intron_diff,transcript_region)"]))
+    mism, viol = ctx.corr("select_similar_isoforms", pre_sel, cases, shard=110, ctype="T", nontrivial=lambda o: len(o["selected"]) < len(o["candidates(id,intron_diff,transcript_region)"]))
     report_strict(ctx, "select_similar_isoforms", mism, viol, keyfn=key_sel, what="select_similar_isoforms selects different isoforms for a read and its mirror image")
 
     # ---- categorize_exon_elongation_subtype
@@ -429,7 +433,7 @@ def unit_assigner(ctx, quick):
         cases.append(("(((%s, %s, %s, %s, %s, %s, %s), %s), %s)" % (civs(sx), czs(ip), czs(rp), civ(ir), civ(rr_), civs(rex), cz(L), o(r0), o(r1)),
                       {"split_exons": sx, "isoform_profile": ip, "read_profile": rp, "isoform_range": ir, "read_range": rr_, "read_exons": rex, "L": L,
                        "events": [jev(e) for e in r0[1]] if r0[0] == "ok" else r0, "events(mirror)": [jev(e) for e in r1[1]] if r1[0] == "ok" else r1}))
-    for _ in range(2500 if quick else 25000):
+    for _ in range(1600 if quick else 25000):
         n = rnd.randint(1, 6); c = sorted(rnd.sample(range(20, 260), 2 * n)); sx = [(c[2 * i], c[2 * i + 1]) for i in range(n)]
         ip = [rnd.choice([1, 1, -1, -2]) for _ in range(n)]; rp = [rnd.choice([1, 1, -1, 0]) for _ in range(n)]
         if rnd.random() < .7: rp = [(1 if rnd.random() < .8 else -1) if x == 1 else rnd.choice([-1, 0, 0]) for x in ip]      # reads that share exons with the isoform
@@ -458,7 +462,7 @@ def unit_assigner(ctx, quick):
         left = any(ip[i] == 1 and rp[i] == 1 for i in range(max(ir[0], rr[0], 0), n))
         right = any(ip[i] == 1 and rp[i] == 1 for i in range(0, min(ir[1] - 1, rr[1] - 1, n - 1) + 1))
         return None if (left and right) else K_ODD
-    mism, viol = ctx.corr("categorize_exon_elongation_subtype", PRE_EL, cases, shard=160, nontrivial=lambda o: isinstance(o["events"], list) and len(o["events"]) > 0)
+    mism, viol = ctx.corr("categorize_exon_elongation_subtype", PRE_EL, cases, shard=105, ctype="T", nontrivial=lambda o: isinstance(o["events"], list) and len(o["events"]) > 0)
     report_strict(ctx, "categorize_exon_elongation_subtype", mism, viol, keyfn=key_el, what="categorize_exon_elongation_subtype is not its own mirror image")
 
 
@@ -491,7 +495,7 @@ def unit_thread(ctx, quick):
     kind = {VERTEX_polya: 0, VERTEX_read_end: 1, VERTEX_polyt: 0, VERTEX_read_start: 1}
     corpus = [(50, 6, [], [5000], [], 5020, False), (50, 6, [], [5000], [], 5020, True),        # the witnesses of MirrorPairsProofs.v
               (5, 2, [500], [500], [], 500, True), (5, 2, [500], [500], [], 507, True), (5, 2, [500], [500, 490], [], 503, False)]   # a polyA and a read-end vertex at one position
-    for it in range(len(corpus) + (4000 if quick else 40000)):
+    for it in range(len(corpus) + (2400 if quick else 40000)):
         if it < len(corpus): apa, delta, pa, re_, out, e, tr = corpus[it]; base = 5000
         else:
             apa = rnd.choice([5, 10]); delta = rnd.choice([0, 2]); base = rnd.randint(300, 600)
@@ -523,7 +527,7 @@ def unit_thread(ctx, quick):
     ctx.rule("IntronPathProcessor.thread_ends / thread_starts (real methods on a stub intron graph; apa_delta 5 / 10, delta 0 / 2): 0-2 polyA vertices, 0-3 read-end vertices, 0-2 outgoing introns around a base "
              "position, read end at +-{0, 1, delta, apa_delta, apa_delta+1} of every vertex, trusted or not; thread_ends on the input, thread_starts on the mirrored input; Coq: model = implementation for each "
              "half, results mirror images; non-trivial = a vertex is returned")
-    mism, viol = ctx.corr("thread_ends / thread_starts", PRE_TH, cases, shard=250, nontrivial=lambda o: o["thread_ends"] is not None)
+    mism, viol = ctx.corr("thread_ends / thread_starts", PRE_TH, cases, shard=160, ctype="T", nontrivial=lambda o: o["thread_ends"] is not None)
     report_strict(ctx, "thread_ends / thread_starts", mism, viol, keyfn=key, what="thread_starts on the mirrored input is not the mirror image of thread_ends")
 
 
@@ -618,7 +622,7 @@ def unit_finder(ctx, quick):
     ctx.rule("PolyAFinder.find_polya_tail on real pysam segments vs find_polyt_head on the reverse-complemented segment (CIGAR reversed, start mirrored): random CIGARs (half of them M/N/S only) with "
              "planted A tails, windows {4,8,16}, external and internal calls, plus the witnesses of MirrorProofs.v; Coq: each half = its model, and the exact mirror statement on the implementation's values; "
              "non-trivial = a tail was found")
-    mism, viol = ctx.corr("polya_finder pair", PRE_FIND, cases, shard=150, nontrivial=lambda o: o["find_polya_tail"] not in (("ok", -1), ("exc", 2)))
+    mism, viol = ctx.corr("polya_finder pair", PRE_FIND, cases, shard=150, ctype="T", nontrivial=lambda o: o["find_polya_tail"] not in (("ok", -1), ("exc", 2)))
     report_strict(ctx, "polya_finder pair", mism, viol, keyfn=key, what="find_polyt_head on the mirrored read is not the mirror image of find_polya_tail")
 
 
